@@ -21,6 +21,8 @@ def units(tier):
     for q in ("parse", "_parse_rtcm3", "_read_bytes", "read", "__init__", "_do_error"):
         us += func_units(f"{R}.{q}", tier)
     us += func_units("pyrtcm.rtcmmessage.RTCMMessage.__init__", tier)
+    from pyvc import clientrun
+    us.append(clientrun.unit("parse_ignores_checksum_when_not_validating", clientrun.lemma_validate_off))
     return us
 
 
